@@ -36,11 +36,19 @@ QUICK = [
     dict(name='1x1-cb1-restart', senders=1, inds=1, callbacks=1, maxq=0, starts=2),
     dict(name='1x3-cb1-bounded1', senders=1, inds=3, callbacks=1, maxq=1, starts=1, rounds=3, goal='some-refused'),
 ]
-THOROUGH = QUICK + [
-    dict(name='2x2-cb1-bounded2', senders=2, inds=2, callbacks=1, maxq=2, starts=1),
-    dict(name='3x1-cb2-unbounded', senders=3, inds=1, callbacks=2, maxq=0, starts=1),
-    dict(name='1x1-cb1-startfail', senders=1, inds=1, callbacks=1, maxq=0, starts=1, start_may_fail=True),
-    dict(name='2x1-cb1-restart', senders=2, inds=1, callbacks=1, maxq=1, starts=2),
+THOROUGH = [
+    dict(name='1x1-cb1-unbounded', senders=1, inds=1, callbacks=1, maxq=0, starts=1, rounds=6),
+    dict(name='1x2-cb2-unbounded', senders=1, inds=2, callbacks=2, maxq=0, starts=1, rounds=5),
+    dict(name='2x1-cb1-bounded1', senders=2, inds=1, callbacks=1, maxq=1, starts=1, rounds=5),
+    dict(name='1x1-cb1-restart', senders=1, inds=1, callbacks=1, maxq=0, starts=2, rounds=5),
+    dict(name='1x3-cb1-bounded1', senders=1, inds=3, callbacks=1, maxq=1, starts=1, rounds=5, goal='some-refused'),
+    dict(name='2x2-cb1-bounded2', senders=2, inds=2, callbacks=1, maxq=2, starts=1, rounds=4),
+    dict(name='3x1-cb2-unbounded', senders=3, inds=1, callbacks=2, maxq=0, starts=1, rounds=4),
+    dict(name='1x1-cb1-startfail', senders=1, inds=1, callbacks=1, maxq=0, starts=1, start_may_fail=True, rounds=4),
+    dict(name='2x1-cb1-restart', senders=2, inds=1, callbacks=1, maxq=1, starts=2, rounds=4),
+    dict(name='3x3-cb2-bounded2', senders=3, inds=3, callbacks=2, maxq=2, starts=1, rounds=3, goal='some-refused'),
+    dict(name='3x3-cb2-unbounded', senders=3, inds=3, callbacks=2, maxq=0, starts=1, rounds=3),
+    dict(name='1x2-cb1-more-timeouts', senders=1, inds=2, callbacks=1, maxq=1, starts=1, rounds=4, max_timeouts=4, max_sleeps=4),
 ]
 DEFAULTS = dict(max_timeouts=2, max_sleeps=2, rounds=4, start_may_fail=False, callbacks_raise=True)
 
